@@ -144,6 +144,20 @@ func plans(id, tier string) (Plan, bool) {
 			{Pkg: pkgSC, Harness: "c13_occurrence", Instr: "v1", Shards: 16},
 			{Pkg: pkgSC, Harness: "c13_addvalue", Instr: "v1", Shards: pick(8, 16)},
 		}}, true
+	case "C14":
+		var jobs []Job
+		for sc := 0; sc < pick(5, 7); sc++ {
+			jobs = append(jobs, Job{Pkg: pkgSC, Harness: "c14_sched", Instr: "v1", Params: fmt.Sprintf("scenario=%d;policy=delay;budget=%d", sc, pick(3, 5)), Shards: pick(2, 8)})
+		}
+		jobs = append(jobs, Job{Pkg: pkgSC, Harness: "c14_sched", Instr: "v1", Params: "scenario=0;precomputed=yes;policy=delay;budget=" + fmt.Sprint(pick(3, 5)), Shards: pick(2, 8)})
+		if th {
+			for sc := 0; sc < 5; sc++ {
+				jobs = append(jobs, Job{Pkg: pkgSC, Harness: "c14_sched", Instr: "v1", Params: fmt.Sprintf("scenario=%d;policy=preemption;budget=1;split=10", sc), Shards: 16})
+			}
+			jobs = append(jobs, Job{Pkg: pkgSC, Harness: "c14_sched", Instr: "v1", Params: "scenario=0;policy=delay;budget=2;accessyields=yes", Shards: 8})
+		}
+		jobs = append(jobs, Job{Pkg: pkgSC, Harness: "c14_race", Race: true, MaxProcs: 16})
+		return Plan{Level: "model_checking", Jobs: jobs}, true
 	case "C17":
 		return Plan{Level: "exploration", Jobs: []Job{
 			{Pkg: pkgTok, Harness: "c17_tokens", Shards: pick(4, 16)},
